@@ -109,6 +109,10 @@ var fragments = []fragSpec{
 		params: []fragParam{{"hash", "hash", false}, {"slhash", "sl.hash", false}, {"recoff", "rec.offset", false},
 			{"sloff", "sl.offset", false}, {"recseg", "rec.segmentID", false}, {"slseg", "sl.segmentID", false}},
 		outs: []string{"cond"}},
+	{coq: "go_iter_more", pkg: "db", recv: "ItemIterator", fn: "Next",
+		from: "for len(it.queue) == 0", to: "for len(it.queue) == 0", toCond: true,
+		params: []fragParam{{"qlen", "len(it.queue)", false}, {"next", "it.nextBucketIdx", false}, {"nbuckets", "it.db.index.numBuckets", false}},
+		outs:   []string{"cond"}},
 	{coq: "go_slice_eof", pkg: "fs", recv: "osMMapFile", fn: "Slice",
 		from: "if end > f.size", to: "if end > f.size", toCond: true,
 		params: []fragParam{{"fend", "end", false}, {"size", "f.size", false}}, outs: []string{"cond"}},
@@ -714,6 +718,10 @@ func stmtHead(p *pkgInfo, s ast.Stmt) string {
 		if x.Tag != nil {
 			return "switch " + fexprText(x.Tag)
 		}
+	case *ast.ForStmt:
+		if x.Init == nil && x.Post == nil && x.Cond != nil {
+			return "for " + fexprText(x.Cond)
+		}
 	}
 	return ""
 }
@@ -762,6 +770,10 @@ func translateFragment(p *pkgInfo, spec *fragSpec, known map[string]*fragSpec) (
 		}
 		if spec.toCond {
 			is, ok := list[hi].(*ast.IfStmt)
+			if fs, isFor := list[hi].(*ast.ForStmt); isFor && fs.Init == nil && fs.Post == nil && fs.Cond != nil {
+				// `for cond { ... }`: the loop condition is the output
+				is, ok = &ast.IfStmt{Cond: fs.Cond, Body: fs.Body}, true
+			}
 			if !ok || is.Init != nil {
 				return "", []string{fmt.Sprintf("%s: %q is not a plain if statement", spec.coq, spec.to)}
 			}
